@@ -201,22 +201,15 @@ Definition judge_write (sc : schema) (maxsize : N) (closed : option N) (shs : li
          answer (never "not found": not every shard answered) *)
       match b with
       | BUpdate ps =>
-          let per := map (fun sh =>
-                       if is_up closed sh then
-                         match update_spec sc maxsize ps (os_points sh) with
-                         | (s', SOk ids) => (s', Some ids)
-                         | (_, SErr _) => (os_points sh, None)
-                         end
-                       else (os_points sh, None)) shs in
-          let expected := concat (map fst per) in
-          let found := concat (map (fun p => match snd p with Some ids => ids | None => [] end) per) in
-          let complete := forallb (fun p => match snd p with Some _ => true | None => false end) per in
-          if complete then (290, ref) else
+          (* judged with the fan-out model the theorems of Props_C17 speak about (Model_C17.update_points): the
+             collection is what the shards held before, a shard of an unavailable server is down *)
+          let c := map (fun sh => mkShard (os_points sh) (is_up closed sh)) shs in
+          let '(c', resp_m) := update_points sc maxsize ps c in
           if err then (108, ref) else
-          if negb (store_eqb (union after) expected && counts_ok after) then (101, ref) else
-          if negb (ids_eqb (map fst resp) (filter (fun id => negb (mem_bytes id found)) requested)) then (102, ref) else
-          if negb (forallb (fun p => snd p =? 1) resp) then (103, ref) else
-          (0, expected)
+          if negb (store_eqb (union after) (flat c') && counts_ok after) then (101, ref) else
+          if negb (ids_eqb (map fst resp) (map fst resp_m)) then (102, ref) else
+          if negb (list_eqb N.eqb (map snd resp) (map snd resp_m)) then (103, ref) else
+          (0, flat c')
       | _ => (290, ref)
       end
   | (base', SOk _) =>
